@@ -2,6 +2,7 @@ package rules
 
 import (
 	"go/token"
+	"go/types"
 	"strings"
 
 	"golang.org/x/tools/go/ssa"
@@ -242,6 +243,33 @@ func runC16(c *eng.Ctx) {
 	c.Rule("R02.1", "K3")
 	ruleJoinBeforeHandover(c)
 	c.Floor(4)
+
+	// ---- R16.7 the server-wide stream settings reach the partition: newPartition copies the server's StreamsConfig field by
+	// field before applying the per-stream overrides; a field that is left out silently keeps its zero value (control off)
+	c.Rule("R16.7", "K6")
+	if fn := c.Fn("server.(*Server).newPartition"); fn != nil {
+		st := p.NamedType("server", "StreamsConfig")
+		if st == nil {
+			c.Unresolved("type server.StreamsConfig")
+		} else {
+			stored := map[string]bool{}
+			eng.Instrs(fn, func(in ssa.Instruction) {
+				if sto, ok := in.(*ssa.Store); ok {
+					if fa, ok := sto.Addr.(*ssa.FieldAddr); ok && ownerName(fa) == "StreamsConfig" {
+						if _, isAlloc := fa.X.(*ssa.Alloc); isAlloc {
+							stored[eng.FieldNameOf(fa)] = true
+						}
+					}
+				}
+			})
+			stt := st.Underlying().(*types.Struct)
+			for i := 0; i < stt.NumFields(); i++ {
+				f := stt.Field(i).Name()
+				c.Check(stored[f], "server-wide stream setting "+f+" reaches new partitions", p.Pos(fn.Pos()), "StreamsConfig."+f+" is initialised from the server configuration in newPartition", "newPartition builds the partition's StreamsConfig without "+f+": the server-wide setting is ignored and only a per-stream override can turn it on"+map[bool]string{true: " — with streams.concurrency.control enabled in the server configuration, streams still run without optimistic concurrency control and conditional publishes are stored at whatever offset comes next", false: ""}[f == "ConcurrencyControl"])
+			}
+		}
+	}
+	c.Floor(10)
 
 	// ---- R16.5
 	c.Rule("R16.5", "K1")
